@@ -318,14 +318,7 @@ func classify(keys []uint32) containerStats {
 }
 
 func offsetWidth(m *tableModel) int {
-	// width of the largest start offset = sum of the sizes of all values but the last
-	off := 0
-	for i, k := range m.keys {
-		if i == len(m.keys)-1 {
-			break
-		}
-		off += len(m.vals[k])
-	}
+	off := maxStartOffset(m)
 	switch {
 	case off < 1<<8:
 		return 1
@@ -355,7 +348,12 @@ type opsCfg struct {
 	maxBad    int
 	valueSeed uint64
 	tag       uint32
+	// offsetTarget > 0: resize the first value so that the largest start offset (sum of all value
+	// sizes but the last) hits this number exactly: the limits of the 1/2/3 byte offset widths.
+	offsetTarget int
 }
+
+var offsetTargets = []int{255, 256, 257, 65535, 65536, 65537}
 
 func genOpsCfg(t *rapid.T, label string) opsCfg {
 	c := opsCfg{}
@@ -364,7 +362,37 @@ func genOpsCfg(t *rapid.T, label string) opsCfg {
 	c.badRate = rapid.SampledFrom([]int{0, 0, 3, 10, 40}).Draw(t, label+"BadRate")
 	c.maxBad = 24
 	c.valueSeed = rapid.Uint64().Draw(t, label+"ValueSeed")
+	c.offsetTarget = genOffsetTarget(t, label, true)
 	return c
+}
+
+// genOffsetTarget: often = 3 of 10 cases aim at a width limit, otherwise 1 of 10.
+func genOffsetTarget(t *rapid.T, label string, often bool) int {
+	k := rapid.IntRange(0, 9).Draw(t, label+"OffsetTargetKind")
+	if !often && (k == 1 || k == 2) {
+		k = 9
+	}
+	switch k {
+	case 0, 1, 2:
+		return rapid.SampledFrom(offsetTargets).Draw(t, label+"OffsetTarget")
+	case 3:
+		if thorough() && rapid.IntRange(0, 9).Draw(t, label+"OffsetTarget16M") == 0 {
+			return rapid.SampledFrom([]int{1<<24 - 1, 1 << 24}).Draw(t, label+"OffsetTargetBig")
+		}
+	}
+	return 0
+}
+
+// maxStartOffset is the start offset of the last accepted value.
+func maxStartOffset(m *tableModel) int {
+	off := 0
+	for i, k := range m.keys {
+		if i == len(m.keys)-1 {
+			break
+		}
+		off += len(m.vals[k])
+	}
+	return off
 }
 
 func genCuts(t *rapid.T, label string, n int) []int {
@@ -424,6 +452,30 @@ func genOps(t *rapid.T, label string, keys []uint32, c opsCfg) []op {
 				b.cuts = genCuts(t, l+"Bad", len(b.val))
 			}
 			ops = append(ops, b)
+		}
+	}
+	if c.offsetTarget > 0 && len(keys) >= 2 {
+		others := 0 // sizes of the accepted values except the first and the last
+		first, last := -1, -1
+		for i := range ops {
+			if ops[i].bad {
+				continue
+			}
+			if first < 0 {
+				first = i
+			}
+			last = i
+		}
+		for i := range ops {
+			if !ops[i].bad && i != first && i != last {
+				others += len(ops[i].val)
+			}
+		}
+		if need := c.offsetTarget - others; need >= 0 {
+			ops[first].val = fill(c.valueSeed, ops[first].key, c.tag, need)
+			if ops[first].stream {
+				ops[first].cuts = genCuts(t, label+"OpResized", need)
+			}
 		}
 	}
 	return ops
@@ -688,6 +740,10 @@ func tableClasses(c opsCfg, ops []op, m *tableModel, cs containerStats) []string
 		fmt.Sprintf("offsetWidth=%d", offsetWidth(m)),
 		"maxValue" + bucket(maxVal, 0, 64, 4096, 65536, 1<<20),
 	}
+	switch off := maxStartOffset(m); off {
+	case 255, 256, 257, 65535, 65536, 65537, 1<<24 - 1, 1 << 24:
+		cl = append(cl, fmt.Sprintf("maxStartOffset=%d", off))
+	}
 	if cs.run > 0 {
 		cl = append(cl, "has-run-container")
 	}
@@ -875,7 +931,8 @@ func TestMergedIterator(t *testing.T) {
 		its := make([]table.Iterator, n)
 		canon := fnv.New64a()
 		for i, ks := range subsets {
-			c := opsCfg{prof: prof, mode: rapid.IntRange(0, 2).Draw(t, "mode"), valueSeed: valueSeed, tag: uint32(i)}
+			c := opsCfg{prof: prof, mode: rapid.IntRange(0, 2).Draw(t, "mode"), valueSeed: valueSeed, tag: uint32(i),
+				offsetTarget: genOffsetTarget(t, "", false)}
 			ops := genOps(t, fmt.Sprintf("t%d", i), ks, c)
 			name := fmt.Sprintf("%06d.sst", i+1)
 			m := buildTable(t, dir, name, ops, true, 0)
@@ -928,7 +985,7 @@ var registerOnce sync.Once
 
 type noopMerger struct{}
 
-func (noopMerger) Init(map[string]interface{})    {}
+func (noopMerger) Init(map[string]interface{})  {}
 func (noopMerger) Merge(uint32, [][]byte) error { return errors.New("c15: merger must never run") }
 
 func registerMerger() {
@@ -1109,7 +1166,7 @@ func TestStoreMultiFile(t *testing.T) {
 		rejected := 0
 		for i, ks := range subsets {
 			c := opsCfg{prof: prof, mode: rapid.IntRange(0, 2).Draw(t, "mode"), valueSeed: valueSeed, tag: uint32(i),
-				badRate: rapid.SampledFrom([]int{0, 0, 5}).Draw(t, "badRate"), maxBad: 6}
+				badRate: rapid.SampledFrom([]int{0, 0, 5}).Draw(t, "badRate"), maxBad: 6, offsetTarget: genOffsetTarget(t, "", false)}
 			ops := genOps(t, fmt.Sprintf("f%d", i), ks, c)
 			// Soundness: storeFlusher.Commit abandons a builder whose Size() is 0, i.e. a flush whose
 			// values are all empty never becomes a file. No production flusher writes empty values
@@ -1128,6 +1185,14 @@ func TestStoreMultiFile(t *testing.T) {
 			}
 			m := newTableModel()
 			flusher := family.NewFlusher()
+			released := false
+			release := func() { // also on a failing case: CloseStore waits for every flusher
+				if !released {
+					released = true
+					flusher.Release()
+				}
+			}
+			defer release()
 			var sw table.StreamWriter
 			getSW := func() table.StreamWriter {
 				if sw == nil {
@@ -1152,7 +1217,7 @@ func TestStoreMultiFile(t *testing.T) {
 			if err := flusher.Commit(); err != nil {
 				t.Fatalf("flusher.Commit() of flush %d failed: %v", i, err)
 			}
-			flusher.Release()
+			release()
 			files = append(files, m)
 			_, _ = canon.Write([]byte(digest(ops)))
 
